@@ -128,12 +128,18 @@ TrApply ==
           \cup Cl(\A p \in 1..n : (\A k \in 1..K : Ev.gpos[k] + 1 # p)
                       => Close(Ev.found[p], Ev.ngflow[p], Ev.tol),
                   "UngroupedAssemblyKeepsItsOwnFlow"))
+\* the real grouping of a core stopped with an error: legal only when the
+\* iteration limit was reached and the last pass did not give the count
+TrGStop == /\ Live("GStop") /\ UNCHANGED st
+           /\ Note(Cl(Ev.lastn # Ev.ng, "NoErrorWhenRequestMet")
+                   \cup Cl(Ev.whole = 1 /\ Ev.npass >= Ev.itmax,
+                           "ErrorOnlyAfterIterationLimit"))
 TrCrash == Live("Crash") /\ UNCHANGED st /\ Note({"NoUnhandledException"})
 Report == /\ ~done /\ l > Len(T.ev)
           /\ PrintT(<<"VERDICT", tid, IF verdict = {} THEN "accept" ELSE "reject",
                       IF firstbad # 0 THEN firstbad ELSE l - 1, verdict>>)
           /\ done' = TRUE /\ UNCHANGED <<tid, l, verdict, firstbad, st>>
 Next == TrGStart \/ TrPass \/ TrGEnd \/ TrDStart \/ TrDIter \/ TrDEnd \/ TrRegroup \/ TrApply
-        \/ TrCrash \/ Report
+        \/ TrGStop \/ TrCrash \/ Report
 Spec == Init /\ [][Next]_vars
 =============================================================================
